@@ -915,7 +915,7 @@ def gen_stream(ctx, pu, jobs):
         sel.append((fn, args))
     cap = ctx.n(20000)
     if len(sel) > cap:
-        sel = sel[:1000] + ctx.rng.sample(sel[1000:], cap - 1000)
+        sel = sel[:1000] + ctx.rng.sample(sel[1000:], max(0, min(len(sel) - 1000, cap - 1000))) if len(sel) > 1000 else sel[:max(cap, 0)]
 
     def sarg(t):
         return 'None' if t is None else 's' + enc_str(t)
